@@ -164,6 +164,11 @@ def run(ck, prog, ctx):
             ck.undecided("SELECT", "categories/count", "counting idiom (entry().and_modify(+1).or_insert(1)  /  *entry().or_insert(0) += 1) not recognised", where=cg.where())
         else:
             first = {i + (0 if in_modify else 1) for i in inits} if set(incs) == {1} else set()
+            inline_src = not src and any((t.callee.res or "").endswith("Ontology::categories") for fb in fam for _, t in fb.calls())
+            if inline_src:
+                # the per-member categories are computed in place from the ontology's category list (not through HpoTerm::categories)
+                ck.undecided("SELECT", "categories/source", "the categories of a member are computed inline from Ontology::categories, not through HpoTerm::categories: the test applied per category is not compared", where=cg.where())
+                src = {"HpoTerm::categories"}
             ck.ob("SELECT", "categories/count", set(incs) == {1} and first == {1} and src == {"HpoTerm::categories"}, "category counts start at %s%s and grow by %s per member category: the first occurrence counts %s (expected 1), every further one +1" % (sorted(set(inits)), "" if in_modify else " + the increment", sorted(set(incs)), sorted(first) or "?"), where=cg.where())
 
     # ---------------------------------------------------------------- ROLE: the annotation unions run over ALL members of the set
